@@ -116,6 +116,9 @@ class HTTPProtocol(BaseGopherProtocol):
         elif (not entry.gethost()) and (not entry.getport()):
             # It's a link to our own server.  Make it as such.  (relative)
             url = urllib.parse.quote(entry.getselector(), errors="surrogateescape")
+            # The root menu's selector is empty; an empty reference would
+            # lead back to the page it is on.
+            url = url or "/"
         else:
             # Link to a different server.  Make it a gopher URL.
             url = entry.geturl(self.server.server_name, self.server.server_port)
